@@ -220,6 +220,41 @@ func (p *Prog) initTransparency() {
 		}
 		cand[f] = true
 	}
+	// a function literal bound to a local of a baseline function that had no literals, only ever called by that name and
+	// writing none of the variables it captures (`admits := func(entry string) bool { return contains(allowed, entry) }`)
+	// is looked through like a named helper
+	for _, f := range lib {
+		if f.Parent() == nil || f.Parent().Parent() != nil || len(f.Blocks) == 0 {
+			continue
+		}
+		pn := short(f.Parent().String())
+		hadLiterals := false
+		for n := range inventory {
+			if strings.HasPrefix(n, pn+"$") {
+				hadLiterals = true
+				break
+			}
+		}
+		if hadLiterals || len(localClosureCalls(f)) == 0 || len(f.AnonFuncs) > 0 {
+			continue
+		}
+		writes := false
+		for _, b := range f.Blocks {
+			for _, in := range b.Instrs {
+				switch x := in.(type) {
+				case *ssa.Store:
+					if _, isFV := x.Addr.(*ssa.FreeVar); isFV {
+						writes = true
+					}
+				case *ssa.Defer, *ssa.Go, *ssa.Panic:
+					writes = true
+				}
+			}
+		}
+		if !writes {
+			cand[f] = true
+		}
+	}
 	// exclude (mutually) recursive candidates
 	var reaches func(from, to *ssa.Function, seen map[*ssa.Function]bool) bool
 	reaches = func(from, to *ssa.Function, seen map[*ssa.Function]bool) bool {
@@ -414,7 +449,7 @@ func viPathExists(root *ssa.Function, from, to ssa.Instruction, cutEdge EdgePred
 		return false
 	}
 	saved, savedRes := paramEnv, resultEnv
-	defer func() { paramEnv, resultEnv = saved, savedRes }()
+	defer func() { paramEnv, resultEnv, stripEnv = saved, savedRes, nil }()
 	seen := map[string]bool{}
 	var work []vpoint
 	var cur vpoint
@@ -646,7 +681,7 @@ func (s Site) guarded(root *ssa.Function, pred EdgePred) bool {
 // viPathToSite: some path from root's entry reaches the site in its own context, avoiding cut edges/instructions.
 func viPathToSite(root *ssa.Function, s Site, cutEdge EdgePred, cutInstr func(ssa.Instruction) bool) bool {
 	saved, savedRes := paramEnv, resultEnv
-	defer func() { paramEnv, resultEnv = saved, savedRes }()
+	defer func() { paramEnv, resultEnv, stripEnv = saved, savedRes, nil }()
 	seen := map[string]bool{}
 	var work []vpoint
 	var cur vpoint
@@ -816,7 +851,7 @@ func boolPhiEnv(env map[*ssa.Phi]ssa.Value, key string, b, pred *ssa.BasicBlock)
 			// a merged error / pointer whose operand on this edge is plainly nil or plainly not nil (`keyErr = errors.New(…)`
 			// in one branch, tested `keyErr != nil` after the merge): remembered so that the later nil test is decided
 			e := phi.Edges[idx]
-			if !(isNilConst(e) || nonNilDirect(e)) {
+			if !(isNilConst(e) || nonNilDirect(e) || isCallResult(e)) {
 				continue
 			}
 			switch phi.Type().Underlying().(type) {
@@ -850,6 +885,16 @@ func boolPhiEnv(env map[*ssa.Phi]ssa.Value, key string, b, pred *ssa.BasicBlock)
 	}
 	sort.Strings(parts)
 	return out, strings.Join(parts, ",")
+}
+
+// isCallResult: v is what a call returned (the call itself or one component of its result tuple).
+func isCallResult(v ssa.Value) bool {
+	if ex, ok := v.(*ssa.Extract); ok {
+		_, isCall := ex.Tuple.(*ssa.Call)
+		return isCall
+	}
+	_, ok := v.(*ssa.Call)
+	return ok
 }
 
 // nonNilDirect: the value is, as it stands, the result of an error constructor or a fresh allocation.
@@ -887,6 +932,13 @@ func resolveBoolPhi(c ssa.Value, env map[*ssa.Phi]ssa.Value) ssa.Value {
 				}
 				if nonNilDirect(v) {
 					return ssa.NewConst(constant.MakeBool(bo.Op == token.NEQ), c.Type())
+				}
+				if isCallResult(v) {
+					// the merged error IS this call's error on the current path: the test is a test of that result
+					if phi == bo.X {
+						return &ssa.BinOp{Op: bo.Op, X: v, Y: bo.Y}
+					}
+					return &ssa.BinOp{Op: bo.Op, X: bo.X, Y: v}
 				}
 			}
 		}
